@@ -159,10 +159,12 @@ def oracles(scn, raw):
                 if not bits <= good:
                     out.append(('C11', 'bitfield sent to %s advertises %s but only %s are stored' % (a, sorted(bits), sorted(good))))
                     out.append(('C01', 'bitfield sent to %s advertises pieces that are not stored' % a))
-                # exactness: everything stored before this step must be advertised
+                # exactness: everything stored when the manager took the bitfield (its Init step for this connection)
+                # must be advertised; what is completed after that moment is announced with Have
+                init_seq = max([e['seq'] for e in raw if e['src'] == 'mgr' and e['ev'] == 'Init' and e.get('peer') == a and e['seq'] < seq], default=seq)
                 before = set()
                 for dseq, g, _, _ in disks:
-                    if dseq < seq:
+                    if dseq < init_seq:
                         before = g
                 if not before <= bits:
                     out.append(('C11', 'bitfield sent to %s omits stored pieces %s' % (a, sorted(before - bits))))
@@ -566,7 +568,7 @@ def mult(tier):
 def check_c01(tier, replay=None):
     m = mult(tier)
     plan = [(G.adversarial, 40 * m, {'kinds': ['Unchoke', 'Unchoke', 'Choke', 'Piece', 'Piece', 'PieceBad', 'PieceOdd', 'Have', 'Bitfield', 'serve', 'advance', 'close']}),
-            (G.honest, 8 * m, {}), (G.upload, 8 * m, {}), (G.midflight, 10 * m, {}), (G.diskfault, 10 * m, {}), ('model', 20 * m, {})]
+            (G.honest, 8 * m, {}), (G.upload, 8 * m, {}), (G.midflight, 10 * m, {}), (G.diskfault, 10 * m, {}), (G.delayed_adversarial, 10 * m, {}), ('model', 20 * m, {})]
     return swarm_check('C01', tier, plan, need_actions=('HPiece', 'MPieceDone'), kinds= ['Unchoke', 'Bitfield', 'Piece', 'Bad'],
                        design_over=dict(Fuel=3, BFMenu='{{1, 2}}', Peers='{a, b}', NBlocks='N1x2') if tier == 'quick' else dict(Fuel=4, MaxQ=2),
                        vacuity={'completions': 10, 'bad_piece_exits': 1}, replay=replay,
@@ -575,7 +577,7 @@ def check_c01(tier, replay=None):
 
 def check_c02(tier, replay=None):
     m = mult(tier)
-    plan = [(G.honest, 32 * m, {}), (G.handover, 10 * m, {}), (G.dupaddr, 8 * m, {}), (G.endgame_cancel, 8 * m, {}), (G.nothing_to_assign, 8 * m, {}), (G.reannounce, 6 * m, {}), (G.orphaned, 6 * m, {})]
+    plan = [(G.honest, 32 * m, {}), (G.handover, 10 * m, {}), (G.dupaddr, 8 * m, {}), (G.endgame_cancel, 8 * m, {}), (G.nothing_to_assign, 8 * m, {}), (G.reannounce, 6 * m, {}), (G.orphaned, 6 * m, {}), (G.delayed_honest, 10 * m, {})]
     return swarm_check('C02', tier, plan, need_actions=(), kinds= ['Unchoke', 'Bitfield', 'Piece', 'Have'],
                        design_over=dict(Fuel=3, BFMenu='{{1, 2}}') if tier == 'quick' else dict(Fuel=4, MaxQ=2),
                        extra_oracles=[oracle_c02], vacuity={'completions': 40}, replay=replay, live=True,
@@ -596,7 +598,7 @@ def check_c08(tier, replay=None):
 
 def check_c09(tier, replay=None):
     m = mult(tier)
-    plan = [(G.upload, 36 * m, {}), (G.optimistic, 6 * m, {}), ('model', 12 * m, {})]
+    plan = [(G.upload, 36 * m, {}), (G.optimistic, 6 * m, {}), (G.delayed_upload, 10 * m, {}), ('model', 12 * m, {})]
     return swarm_check('C09', tier, plan, need_actions=('HRequest', 'MRequest', 'MRotate', 'HBroadState'), kinds= ['Bitfield', 'Request', 'Interested', 'NotInterested'] if tier == 'quick' else ['Unchoke', 'Bitfield', 'Piece', 'Request', 'Interested'],
                        design_over=dict(Peers='{a}', NPieces=2, NBlocks='N1x2', Own0='{1}', Fuel=5, BFMenu='{{2}}', TickFuel=1, Rates='{0}') if tier == 'quick'
                        else dict(NPieces=2, NBlocks='N1x2', Own0='{1}', Fuel=4, BFMenu='{{2}, {}}', TickFuel=1, Rates='{0}', MaxQ=2),
@@ -607,7 +609,7 @@ def check_c09(tier, replay=None):
 
 def check_c10(tier, replay=None):
     m = mult(tier)
-    plan = [(G.honest, 20 * m, {}), (G.adversarial, 20 * m, {}), (G.reassign, 25 * m, {}), (G.endgame_cancel, 12 * m, {}), ('model', 20 * m, {})]
+    plan = [(G.honest, 20 * m, {}), (G.adversarial, 20 * m, {}), (G.reassign, 25 * m, {}), (G.endgame_cancel, 12 * m, {}), (G.choked_delivery, 10 * m, {}), (G.delayed_reassign, 8 * m, {}), ('model', 20 * m, {})]
     return swarm_check('C10', tier, plan, need_actions=('HPiece', 'HReply'), kinds= ['Unchoke', 'Choke', 'Bitfield', 'Piece'],
                        design_over=dict(NBlocks='N3b', Fuel=6, Peers='{a}', BFMenu='{{1, 2}}') if tier == 'quick' else dict(NBlocks='N3b', Fuel=5, BFMenu='{{1, 2}}'),
                        vacuity={'requests_written': 100, 'completions': 20}, replay=replay,
@@ -616,7 +618,7 @@ def check_c10(tier, replay=None):
 
 def check_c11(tier, replay=None):
     m = mult(tier)
-    plan = [(G.honest, 20 * m, {'npeers': 3}), (G.upload, 12 * m, {}), (G.midflight, 20 * m, {})]
+    plan = [(G.honest, 20 * m, {'npeers': 3}), (G.upload, 12 * m, {}), (G.midflight, 20 * m, {}), (G.init_window, 16 * m, {}), (G.delayed_honest, 8 * m, {})]
     return swarm_check('C11', tier, plan, need_actions=('HBroadHave', 'MInit', 'HUnchoke'), kinds= ['Handshake', 'Unchoke', 'Bitfield', 'Piece'],
                        design_over=dict(HS0='FALSE', Fuel=4, NBlocks='N1x2', BFMenu='{{1, 2}}') if tier == 'quick' else dict(HS0='FALSE', Fuel=5, NBlocks='N1x2', MaxQ=2),
                        vacuity={'bitfields_written': 20, 'haves_written': 20}, replay=replay,
@@ -626,7 +628,7 @@ def check_c11(tier, replay=None):
 
 def check_c12(tier, replay=None):
     m = mult(tier)
-    plan = [(G.adversarial, 50 * m, {}), (G.honest, 6 * m, {}), (G.reassign, 30 * m, {}), (G.stale_choke, 10 * m, {}), (G.choke_race, 30 * m, {}), (G.dupaddr, 10 * m, {}), (G.endgame_cancel, 8 * m, {}), (G.nothing_to_assign, 10 * m, {}), ('model', 30 * m, {})]
+    plan = [(G.adversarial, 50 * m, {}), (G.honest, 6 * m, {}), (G.reassign, 30 * m, {}), (G.stale_choke, 10 * m, {}), (G.choke_race, 30 * m, {}), (G.dupaddr, 10 * m, {}), (G.endgame_cancel, 8 * m, {}), (G.nothing_to_assign, 10 * m, {}), (G.choked_delivery, 8 * m, {}), (G.stale_kill, 10 * m, {}), (G.delayed_adversarial, 20 * m, {}), (G.delayed_reassign, 12 * m, {}), ('model', 30 * m, {})]
     return swarm_check('C12', tier, plan, need_actions=('MUnchoke', 'MChoke', 'MPieceDone', 'MKill'), kinds= ['Unchoke', 'Choke', 'Bitfield', 'Piece'] if tier == 'quick' else ['Unchoke', 'Choke', 'Bitfield', 'Piece', 'Have', 'Bad'],
                        design_over=dict(Fuel=3, BFMenu='{{1, 2}}') if tier == 'quick' else dict(Fuel=4, MaxQ=2),
                        vacuity={'mgr_events': 500, 'completions': 5}, replay=replay,
@@ -646,7 +648,7 @@ def check_c13(tier, replay=None):
 
 def check_c14(tier, replay=None):
     m = mult(tier)
-    plan = [(G.choking, 20 * m, {}), (G.slots, 10 * m, {}), (G.rotation_race, 16 * m, {}), (G.optimistic, 5 * m, {})]
+    plan = [(G.choking, 20 * m, {}), (G.slots, 10 * m, {}), (G.rotation_race, 16 * m, {}), (G.optimistic, 5 * m, {}), (G.delayed_choking, 6 * m, {})]
     return swarm_check('C14', tier, plan, need_actions=('MRotate', 'MBitfield', 'HBroadState'), kinds= ['Bitfield', 'Interested'],
                        design_over=dict(Peers='{a, b}', NPieces=1, NBlocks='N1', TickFuel=1, Fuel=2, MaxUnchoked=1, BFMenu='{{1}}', OptRounds=1) if tier == 'quick'
                        else dict(Peers='{a, b, c}', NPieces=1, NBlocks='N1', TickFuel=1, Fuel=1, MaxUnchoked=1, BFMenu='{{1}}', OptRounds=1, MaxQ=2),   # 6.3 M states, 8 min
